@@ -46,17 +46,26 @@ def gen_foreign(rng):
     else:
         doc = recipe.gen_doc(rng, max_changes=3, max_files=3, enc_p=0.3)
         tag = None
+    unpadded = rng.random() < 0.1
+    if unpadded:
+        recipe.blank_lines_style(doc, rng)
     recipe.annotate_droppable(doc)
+    # now and then a file with thousands of blank lines between sections
+    # and at its end
+    gaps = rng.random() < 0.01
     st = Style(rng=rng,
                shuffle=rng.random() < 0.7,
-               blank=rng.choice([0, 0, 1, 3]),
+               blank=rng.choice([0, 0, 1, 3]) if not gaps else 4000,
                crlf_headers=rng.random() < 0.35,
                drop=rng.sample(['line_endings', 'format', 'mimetype', 'type',
                                 'indent'], rng.randint(0, 4)),
                json_style=rng.choice(JSON_STYLES),
-               trailing_blank=rng.choice([0, 0, 2]),
-               meta_line_endings=rng.random() < 0.2)
+               trailing_blank=rng.choice([0, 0, 2]) if not gaps else 4000,
+               meta_line_endings=rng.random() < 0.2,
+               unpadded_blank=unpadded)
     data, layout = serialize(doc, st)
+    if gaps and tag is None:
+        tag = 'long_blank_runs'
     return doc, st, data, layout, tag
 
 
